@@ -148,7 +148,7 @@ def textOp (dedup : Bool) (molname : String) (conect : Bool) (sys : List TMol) (
   let names : List String := match given with
     | some ns => ns
     | none => (nameMolTypes (shareMolType npClose) dedup (sys.map (·.mol))).map (molName molname)
-  let inp : TopIn := { sys := sys, names := names, cites := cites, header := header, defines := defines,
+  let inp : TopIn := { sys := sys, names := names.map String.toList, cites := cites, header := header, defines := defines,
                        params := params, itpPaths := paths }
   let topPart := match writeTopology inp with
     | .error e => "err " ++ encTopErr e
@@ -157,7 +157,7 @@ def textOp (dedup : Bool) (molname : String) (conect : Bool) (sys : List TMol) (
         | .ok p => encTopParsed p
         | .error _ => "perr"
       "ok " ++ encList (names.map encStr) ++ " params " ++ encList (o.paramFiles.map encStr)
-        ++ " itps " ++ encList (o.itps.map fun (n, i, _, text) => encList [encStr n, encNat i, encStr text])
+        ++ " itps " ++ encList (o.itps.map fun (n, i, _, text) => encList [encChars n, encNat i, encStr text])
         ++ " top " ++ encChars o.top ++ " parsed " ++ rt
   let pdbPart := match pdbLines C16.Layout.pdb conect sys with
     | .ok ls => "ok " ++ encLines ls
